@@ -15,7 +15,7 @@ model mode  (state = one assembler session of Model/Emitter.lean)
   -> <code> rep=<0|1> O <opts> <sig> <id> <cmt> sec=<sizes> lab=<n> bnd=<n> rel=<n> fix=<n> cur=<n> off=<n> bh=<fnv of the section bytes>
 
 monitor mode (stateless; one observation per line)
-  mon <emit|call|holder|finalize> <asm 0|1> <ret|rec|thr|none> <ret> <handled a,b|-> <thrown 0|1> <o1> <o2> <o3> <o4> ; <snap> ; <snap> ; <snap> ; <refs|-> ; <id:max,..|->
+  mon <emit|bind|call|holder|finalize> <asm 0|1> <ret|rec|thr|none> <ret> <handled a,b|-> <thrown 0|1> <o1> <o2> <o3> <o4> <p1> <p2> <p3> <p4> ; <snap> ; <snap> ; <snap> ; <refs|-> ; <id:max,..|->
   snap = sec=.. lab=.. bnd=.. rel=.. fix=.. adr=.. nod=.. cur=.. off=.. h=.. bh=..
   -> good | BAD <clause>
 -/
@@ -82,10 +82,23 @@ def stepModel (s : St) (ws : List String) : St × String :=
     let a : ArchKind := if arch == "x86" then .x86 else if arch == "a64" then .a64 else .x64
     let hk : HandlerKind := if h == "ret" then .returning else if h == "rec" then .recording else if h == "thr" then .throwing else .none
     ({ arch := a, handler := hk }, "ok")
-  | _ =>
-    match parseOp s ws with
-    | some op => let r := step s op; (r.st, showSt r)
-    | none => (s, "badline")
+  | pre :: rest =>
+    if pre.startsWith "@" then
+      -- one-shot state set right before a non-instruction call: "@<options hex>,<extra 0|1>,<comment 0|1>"; judged, then dropped
+      match (pre.drop 1).toString.splitOn ",", parseOp s rest with
+      | [o, x, c], some op =>
+        match parseHex? o with
+        | some o =>
+          let s1 := { s with one := { options := o, extraSig := if x == "1" then 1 else 0, extraId := 0, comment := c == "1" } }
+          let r := step s1 op
+          ({ r.st with one := OneShot.empty }, showSt r)
+        | none => (s, "badline")
+      | _, _ => (s, "badline")
+    else
+      match parseOp s ws with
+      | some op => let r := step s op; (r.st, showSt r)
+      | none => (s, "badline")
+  | [] => (s, "badline")
 
 /-! monitor -/
 open AsmjitVerif.EmitterSpec
@@ -117,13 +130,14 @@ def monitor (ws : List String) : String :=
   match splitOnWord ws ";" with
   | [hd, b, a, sh, [refs], [phys]] =>
     match hd with
-    | [kind, asm, h, ret, handled, thrown, o1, o2, o3, o4] =>
+    | [kind, asm, h, ret, handled, thrown, o1, o2, o3, o4, p1, p2, p3, p4] =>
       let r : Option (Obs String) := do
         let kind : CallKind ← match kind with
-          | "emit" => some .emit | "call" => some .emitterCall | "holder" => some .holderCall | "finalize" => some .finalize | _ => none
+          | "emit" => some .emit | "bind" => some .bind | "call" => some .emitterCall | "holder" => some .holderCall | "finalize" => some .finalize | _ => none
         let h : Handler := if h == "ret" then .returning else if h == "rec" then .recording else if h == "thr" then .throwing else .none
         some { kind := kind, isAssembler := asm == "1", handler := h, ret := ← ret.toNat?, handled := ← natList? handled,
                thrown := thrown == "1", oneShot := (← parseHex? o1, ← parseHex? o2, ← o3.toNat?, o4 == "1"),
+               oneShotBefore := (← parseHex? p1, ← parseHex? p2, ← p3.toNat?, p4 == "1"),
                before := ← parseSnap b, after := ← parseSnap a, shadow := ← parseSnap sh,
                labelRefs := ← natList? refs, physIds := ← parsePairs phys }
       match r with
